@@ -379,6 +379,61 @@ def long_file_cases():
     return out
 
 
+SIMPLE_FAILS = [
+    ("var z = nil + 1;", "TypeError", "Unhandled TypeError: Binary operands must be two numbers or two strings."),
+    ("var z = [1][5];", "IndexError", "Unhandled IndexError: Vec index out of bounds."),
+    ("var z = undefined_name;", "NameError", "Unhandled NameError: Undefined variable 'undefined_name'."),
+    ("var z = 1.nosuch;", "AttributeError", "Unhandled AttributeError: Undefined property 'nosuch'."),
+    ("var z = [1][0.5];", "ValueError", "Unhandled ValueError: Expected an integer value but found '0.5'."),
+    ("throw Error.new(\"made here\");", "RuntimeError", "Unhandled Error: made here"),
+]
+
+
+def twin_cases():
+    """Functions (methods, functions of a module and of the script) whose bodies are IDENTICAL - same instructions, same constants - on
+    different lines: the one that runs is reported with ITS lines.  (Code shared between textually equal functions must not share
+    what locates it.)"""
+    out = []
+    for stmt, kind, first in SIMPLE_FAILS:
+        # two and three identical functions; the last, the middle one fails
+        for n, which in ((2, 1), (3, 1), (3, 2)):
+            lines = []
+            for k in range(n):
+                lines += ["fn twin%d() {" % k, "    var pad = 1;", "    " + stmt, "    return pad;", "}"]
+            lines += ["var before = 0;", "twin%d();" % which]
+            out.append(("\n".join(lines) + "\n", {}, kind, first, ['[module "main", line %d] in twin%d()' % (which * 5 + 3, which), '[module "main", line %d] in script' % (n * 5 + 2)]))
+        # the same method in two classes (and an identical default shape around it)
+        lines = ["#[constructor(new)]", "class First {", "    fn label(self) {", "        " + stmt, "    }", "}", "#[constructor(new)]", "class Second {", "    fn label(self) {", "        " + stmt, "    }", "}",
+                 "var ok = 1;", "Second.new().label();"]
+        out.append(("\n".join(lines) + "\n", {}, kind, first, ['[module "main", line 10] in label()', '[module "main", line 14] in script']))
+        # identical callers of identical callees
+        lines = ["fn inner_a() {", "    " + stmt, "}", "fn inner_b() {", "    " + stmt, "}", "fn outer_a() {", "    return inner_b();", "}", "fn outer_b() {", "    return inner_b();", "}", "outer_b();"]
+        out.append(("\n".join(lines) + "\n", {}, kind, first, ['[module "main", line 5] in inner_b()', '[module "main", line 11] in outer_b()', '[module "main", line 13] in script']))
+        # the same function text in a module and in the script
+        if "undefined_name" not in stmt:
+            mod = "fn shared() {\n    var pad = 1;\n    %s\n}\n" % stmt
+            lines = ["import \"twinmod\";", "var gap = 0;", "fn shared() {", "    var pad = 1;", "    " + stmt, "}", "shared();"]
+            out.append(("\n".join(lines) + "\n", {"twinmod": mod}, kind, first, ['[module "main", line 5] in shared()', '[module "main", line 7] in script']))
+            lines = ["import \"twinmod\";", "fn shared() {", "    var pad = 1;", "    " + stmt, "}", "var gap = 0;", "twinmod.shared();"]
+            out.append(("\n".join(lines) + "\n", {"twinmod": mod}, kind, first, ['[module "twinmod", line 3] in shared()', '[module "main", line 7] in script']))
+    return out
+
+
+def reraised_cases():
+    """The same failure happens twice: the first time it is caught and the handler CHANGES the error object it was given (its context, a
+    new field); the second time it is not caught.  The report of the second failure is that failure's own class, message and lines."""
+    out = []
+    for stmt, kind, first in SIMPLE_FAILS:
+        for between in (0, 3, 9):
+            lines = ["fn risky() {", "    " + stmt, "    return 0;", "}",
+                     "try { risky(); } catch e { e.context = \"rewritten by the handler\"; e.note = [1]; }"]
+            for k in range(between):
+                lines.append("try { var q%d = [1, 2][%d]; } catch e%d { e%d.context = %d; }" % (k, 7 + k, k, k, k))
+            lines += ["var gap = 0;", "risky();"]
+            out.append(("\n".join(lines) + "\n", {}, kind, first, ['[module "main", line 2] in risky()', '[module "main", line %d] in script' % (7 + between)]))
+    return out
+
+
 def trace_matches(got, want):
     """`want` entries may list alternatives separated by `|`."""
     return len(got) == len(want) and all(g in w.split("|") for g, w in zip(got, want))
@@ -398,6 +453,7 @@ def correspondence(ctx, model_ok=True):
     n_corpus = len(cases)
     cases += long_file_cases()
     cases += runaway_cases()
+    cases += twin_cases() + reraised_cases()
     cases += [gen_trace_program(rng.fork("t%d" % i)) for i in range(n_tr)]
     plist = [("trace%d" % i, c[0], c[1]) for i, c in enumerate(cases)]
     nontrivial = set()
